@@ -64,5 +64,5 @@ if res.get('applies'):
             lines = [l for l in r.stdout.split('\n') if l.startswith('  [')]
             res['checks'][p] = dict(rc=r.returncode, violation=vio[:1], lines=[l[:300] for l in lines[:3]])
     finally:
-        sh('git -C %s checkout -- .' % MUT)
+        sh('git -C %s checkout -- . && ( [ "$(realpath %s)" = /repo ] || git -C %s clean -fdq )' % (MUT, MUT, MUT))
 print(json.dumps(res, indent=1))
